@@ -61,7 +61,7 @@ class OptProbe:
                             else:
                                 nl += 1
                 probe.events.append((ns, nl))
-                if probe.neutralise and ns != nl:
+                if probe.neutralise and ns > nl:
                     keep.add(slot)
             return probe.orig(start, set(remove) - keep if keep else remove)
         O._remove_extraneous_slot_access = wrapper
@@ -69,6 +69,13 @@ class OptProbe:
     def reset(self, neutralise=False):
         self.events = []
         self.neutralise = neutralise
+
+
+def known_mechanism(events):
+    """The known defect's signature in one compilation: some slot lost more stores than loads, and no slot lost more loads than stores
+    (the unchanged optimiser deletes all stores and exactly the one adjacent load, so that never happens there; a compilation where it
+    does happen is never attributed)."""
+    return any(ns > nl for ns, nl in events) and not any(ns < nl for ns, nl in events)
 
 
 # ------------------------------------------------------------------------------------------------ optimiser-biased family
@@ -254,7 +261,7 @@ def check_recipe(acc, probe, recipe, versions, ctxs, origin, only=None, reuse_po
                 if not d and got.san and b.status != "fail" and not b.san:
                     d.append("AVM sanitizer only under this setting: %r" % (got.san[:1],))
                 if d:
-                    unpaired = any(ns != nl for ns, nl in events)
+                    unpaired = known_mechanism(events)
                     attributed = False
                     if unpaired and eff_ss:
                         # counterfactual: same compilation with the deletion restricted to exactly paired store/load
@@ -344,7 +351,7 @@ def check_corpus(acc, probe, pt, ent, version, rng):
                     d.append("caller-visible stack differs from the unoptimised program")
                 if d:
                     acc.violation("option_changes_behaviour", {"corpus": lbl, "versions": [version], "setting": [ss, fp], "ctx": cd,
-                                                               "mechanism": KNOWN if any(ns != nl for ns, nl in events) else None},
+                                                               "mechanism": KNOWN if known_mechanism(events) else None},
                                   "%s scratch_slots=%s frame_pointers=%s v%d: %s" % (lbl, ss, fp, version, "; ".join(d)[:600]))
                 else:
                     acc.counters["agree"] += 1
